@@ -1158,4 +1158,49 @@ example : (run Cfg.repaired ([.warm (.ok true), .sched none] ++ .provRet (RunRes
 
 end Provider
 
+/-! ### round 6: provider → pool → engine, end to end -/
+section EndToEnd
+open Pandora.Model.C05.Prov
+
+/-- END TO END provider → pool → engine: `n` pools, pool `i` executing `pools i` (any choice lists), the results
+`Engine.Run` consumes being the results of the pools.  If the provider of ONE pool `j` - running at that moment - returns
+an error of the provider model and nobody cancels that pool from outside, `Engine.Run` does not return nil, whatever the
+other pools do and in whatever order the results become ready -/
+theorem C05_provider_failure_fails_engine (cfg : Cfg) (hfix : cfg.fixSelect = true) (n : Nat) (pools : Nat → List Choice)
+    (evs : List EEv)
+    (hid : ∀ id r d, EEv.pool id r d ∈ evs → id < n ∧ (run cfg (pools id)).result = some r)
+    (hnd : (evs.filterMap EEv.poolId).Nodup)
+    (j : Nat) (hj : j < n) (pre post : List Choice) (res : RunRes) (herr : res.isErr = true)
+    (hpool : pools j = pre ++ .provRet res.toRet :: post) (hrun : (run cfg pre).prov = .running)
+    (hext : (run cfg (pools j)).extC = false) :
+    engRun n evs ≠ some .ok := by
+  intro hok
+  have h := (C05_engine_success_all_pools cfg hfix n pools evs hid hnd hok j hj).1
+  rw [hpool] at h hext
+  exact C05_provider_failure_fails_pool cfg hfix pre post res herr hrun hext h
+
+/-- … in particular for the ammo sources the harness writes (`rp:json.<k>.tr|bad|rderr`): `k` complete ammo and a tail
+that is cut short, malformed or unreadable, read by `DecodeProvider.Run` in one pass with no limit: whatever the
+provider model returns for that source, fed to pool `j` while its provider runs, keeps `Engine.Run` from succeeding -
+for every `k` -/
+theorem C05_broken_ammo_source_fails_engine (cfg : Cfg) (hfix : cfg.fixSelect = true) (n : Nat) (pools : Nat → List Choice)
+    (evs : List EEv)
+    (hid : ∀ id r d, EEv.pool id r d ∈ evs → id < n ∧ (run cfg (pools id)).result = some r)
+    (hnd : (evs.filterMap EEv.poolId).Nodup)
+    (j : Nat) (hj : j < n) (pre post : List Choice) (k : Nat) (t : Tail) (ht : t ≠ .clean) (o : Out)
+    (ho : decodeRun {} none (answers k t) = some o)
+    (hpool : pools j = pre ++ .provRet o.res.toRet :: post) (hrun : (run cfg pre).prov = .running)
+    (hext : (run cfg (pools j)).extC = false) :
+    engRun n evs ≠ some .ok := by
+  obtain ⟨e, _, _, he⟩ := C05_written_source_fails_provider k t ht
+  rw [he] at ho
+  cases ho
+  exact C05_provider_failure_fails_engine cfg hfix n pools evs hid hnd j hj pre post _ rfl hpool hrun hext
+
+-- non-vacuity: one pool whose provider reads two ammo and a truncated third; the engine reads that pool's failure
+example : (run Cfg.repaired ([.warm (.ok true), .sched none] ++
+      .provRet (RunRes.decodeFailed 2 .unexpectedEof).toRet :: [.awaitProv, .errDeliver])).extC = false ∧
+    engRun 1 [.pool 0 (.fail .provider (.err 1)) false] = some (.fail 0 (.fail .provider (.err 1))) := by decide
+end EndToEnd
+
 end Pandora.Props.C05
